@@ -341,6 +341,18 @@ ROUND12 = {
     "C01": "And::blocking_flush never grows the timeout it hands to its sides.",
 }
 
+ROUND13 = {
+    "C02": "a visitor closure that parks a fallible step's outcome in a captured slot keeps the first failure (stores on Err only, or breaks).",
+    "C05": "no caller-supplied code runs between a SpanGuard method taking the guard apart and rebuilding it (known finding D24: map_props).",
+    "C10": "a file reopened for reuse has its directory entry synced before anything is acknowledged into it (found defect D28, fixed).",
+    "C11": "the retention loop is left only when the listing is short enough or empty, never because a delete failed.",
+    "C12": "the gRPC response handler reads grpc-status from the response headers as well as the trailers (found defect D26, fixed) and, like the HTTP one, acknowledges only on the 2xx side of a test of the HTTP status (D27, fixed).",
+    "C15": "the RFC 3339 parser admits exactly the lengths the formatter's template can produce; the month table of from_parts is the cumulative day counts of a common year; the leap flag follows the Gregorian rule arm by arm.",
+    "C16": "a hole value written through a fmt::Formatter does not inherit the caller's format flags (found defect D25, fixed).",
+    "C17": "every proc-macro entry point that is given a level hands it on (lvl property / span injection) on every token-producing path.",
+    "C19": "parked-outcome rule as C02 (the map views' serde / sval impls).",
+}
+
 for p in props:
     pid = p["id"]
     if pid in CLAIMS and os.path.exists(os.path.join(VERIF, "rules", pid.lower() + ".py")):
@@ -355,6 +367,8 @@ for p in props:
             text = text.rstrip() + " Round 11: " + ROUND11[pid]
         if pid in ROUND12:
             text = text.rstrip() + " Round 12: " + ROUND12[pid]
+        if pid in ROUND13:
+            text = text.rstrip() + " Round 13: " + ROUND13[pid]
         checks.append({
             "property_id": pid,
             "quick_cmd": "./check %s --tier quick" % pid,
